@@ -269,6 +269,21 @@ static void run_agc(Json& js, vh::Rng& rng, long budget) {
         const int kind = (int)rng.range(0, 2);                             // complex exponential / DC / +-A
         const int n = 60000 + 40 * alen;
         Agc agc(target, maxg, alen, 0.01, 0.01);
+        // half of the instances have a past: a loud burst, then digital silence (exact zeros), before the constant-envelope
+        // input arrives; the steady state must not depend on it
+        if (t % 2 == 1) {
+            const int nb = (int)rng.range(300, 3000), nz = (int)rng.range(alen + 10, alen + 6000);
+            const double ba = std::pow(10.0, 2 * rng.unif());
+            arr_real pre(nb + nz);
+            for (int i = 0; i < nb; ++i) {
+                pre[i] = ba * std::sin(0.3 * i + 0.1 * t);
+            }
+            if (kind == 0) {
+                (void)agc.process(complex(pre));
+            } else {
+                (void)agc.process(pre);
+            }
+        }
         double pout = 0, gmax = 0;
         const int tail = 4000;
         const double inpow = amp * amp;
